@@ -49,6 +49,7 @@ VARIANTS = {
     "C10": [("root_keeps_aux", "root squashing forgets the auxiliary gids"),
             ("case_sensitive", "the mode string is compared case-sensitively"),
             ("ctx_hoisted", "the AuthContext is built once per connection, so the first parsed AUTH_SYS credential stays attached"),
+            ("update_clears_squash", "a run-time update that names no squash mode is stored with an empty mode"),
             ("gids17_ok", "17 auxiliary gids are accepted")],
     "C12": [("no_aux", "auxiliary groups are ignored when the class is chosen"),
             ("ro_ignored_for_extend", "EXTEND is granted on a read-only export")],
@@ -59,6 +60,7 @@ REASONS = {
             "ValidateAuthentication decides against the host and port rule", "a request the rule rejects",
             "a rejected request reached", "an admissible request was answered MSG_DENIED",
             "acceptLoop accepts or refuses", "a request on an accepted connection", "a request on an open connection",
+            "with the list given at construction",
             "an admissible request on an open connection"),
     "C10": ("a credential is admitted or denied against the rule", "effective uid/gid differ", "auxiliary gids after squashing differ",
             "the identity ACCESS acts on differs", "squashing altered auxiliary-gid data", "a request on a connection is"),
@@ -182,11 +184,13 @@ def brief(pid, ln):
         if e.get("ev") == "c10s":
             return "one connection, squash %r; requests (credential -> reply, probes granting READ as owner / as group): %s" % (
                 e["mode"], [("%s %s/%s aux %s" % (st["cred"]["flavor"], st["cred"]["uid"], st["cred"]["gid"], st["cred"]["aux"]),
-                             st["rpc"], st["own"], st["grp"]) for st in e["steps"]])
+                             st["rpc"], st["own"], st["grp"]) if st.get("kind", "req") == "req"
+                            else "run-time update %s (%s)" % (st["how"], "accepted" if st["accepted"] else "refused")
+                            for st in e["steps"]])
         if pid == "C09":
             return "client %r list %r port %s secure %s; srv=%s va=%s conn=%s calls=%s" % (
                 e["client"]["text"], [x["text"] for x in e["list"]], e["port"], e["secure"], e["srv"]["allowed"], e["va"]["allowed"],
-                e["conn"], [(c["prog"], c["cred"], c["rpc"], c["dispatched"], c["backend"]) for c in e["calls"]][:6])
+                {"conn": e["conn"], "constructed": e.get("ctor")}, [(c["prog"], c["cred"], c["rpc"], c["dispatched"], c["backend"]) for c in e["calls"]][:6])
         if pid == "C10":
             return "mode %r cred %s -> va %s pre %s hc %s" % (e["mode"], e["cred"], e["va"], {k: e["pre"][k] for k in ("run", "allowed", "uid", "gid", "aux", "shared_before", "shared_after")}, e["hc"])
         return "mode %o kind %s ro %s relation %s who %s obj %s granted[mask 63]=%s granted=%s" % (
@@ -392,6 +396,8 @@ def fill_coverage(ctx, pid, summ, stats):
             raise vflib.Broken("C09: the vector set lost a verdict class: %s" % stats)
         if stats["c09s"] != summ["sessions"] or stats["c09s"] == 0 or stats["c09s_denied"] == 0:
             raise vflib.Broken("C09: the sessions on one connection were not driven: %s %s" % (stats, summ))
+        if summ["constructed"] == 0:
+            raise vflib.Broken("C09: no policy was given at construction: %s" % summ)
         if stats["c09_denied"] == 0 or summ["call_kinds_denied_and_accepted"] < summ["call_kinds"] // 2:
             raise vflib.Broken("C09: too few program/procedure classes were seen both denied and admitted: %s" % summ)
         cov["traces_validated_against_impl"] = stats["c09"] + stats["c09s"]
@@ -406,7 +412,7 @@ def fill_coverage(ctx, pid, summ, stats):
                        "request judged by the policy in force when it arrives; non-trivial = vectors the rule rejects")
         cov["spec_actions_covered_by_impl"] = ["Reconfigure", "Accept(refuse)", "Accept(pass)", "Step1(deny)", "Step1(pass)", "Step2(deny)", "Step2(pass)",
                                                "Step3(deny flavor)", "Spawn", "Handler"]
-        cov["harness_summary"] = {k: summ[k] for k in ("sessions", "vectors", "calls", "denied", "connections", "refused", "call_kinds",
+        cov["harness_summary"] = {k: summ[k] for k in ("constructed", "sessions", "vectors", "calls", "denied", "connections", "refused", "call_kinds",
                                                        "call_kinds_denied_and_accepted", "dispatch_observable")}
         if not summ["dispatch_observable"]:
             ctx.notes.append("handler dispatch is not observable through the debug log on this tree; 'reaches no procedure handler' "
@@ -415,12 +421,14 @@ def fill_coverage(ctx, pid, summ, stats):
                             "strings are exercised at the function level and through HandleCall only",
                             "handler dispatch is observed through the server's debug log line written by the dispatching goroutine, backend "
                             "calls through the recording backend, handle allocation through the handle table size",
+                            "AllowedIPs is the list the operator gave (to New or to UpdatePolicyOptions), not what the server keeps of it: a "
+                            "non-empty list whose entries are all malformed admits nobody",
                             "IPv4 client against an IPv6 CIDR shorter than /96 covering ::ffff:0:0/96, and any positive match involving a "
                             "zone suffix, are accepted either way"]
     elif pid == "C10":
         if stats["c10"] != summ["vectors"] or stats["c10_denied"] == 0 or stats["c10_changed"] == 0 or stats["c10_probed"] == 0:
             raise vflib.Broken("C10: the vector set lost a class: %s" % stats)
-        if stats["c10s"] != summ["sessions"] or stats["c10s"] == 0:
+        if stats["c10s"] != summ["sessions"] or stats["c10s"] == 0 or stats["c10s_updates"] == 0:
             raise vflib.Broken("C10: the sessions on one connection were not driven: %s %s" % (stats, summ))
         cov["traces_validated_against_impl"] = stats["c10"] + stats["c10s"]
         cov["evaluations"] = stats["c10"] * 3 + stats["c10_probed"] * 14 + stats["c10s_steps"] * 14
@@ -430,17 +438,22 @@ def fill_coverage(ctx, pid, summ, stats):
                        "17 gids, truncation at every word; evaluations = ValidateAuthentication twice (parsed inside / pre-parsed shared "
                        "slice), HandleCall, 14 ACCESS probes; plus sessions: 3-5 requests with different credentials (AUTH_SYS, "
                        "AUTH_NONE, refused flavors, undecodable bodies) on ONE connection through the real connection loop, each "
-                       "judged by its own credential through 14 ACCESS probes; non-trivial = vectors whose ids change or that are denied")
+                       "judged by its own credential through 14 ACCESS probes, some with run-time updates that name no squash mode "
+                       "(UpdatePolicyOptions / UpdateExportOptions toggling read-only or the allow-list) between the requests: the mode "
+                       "the export was created with keeps governing; non-trivial = vectors whose ids change or that are denied")
         cov["spec_actions_covered_by_impl"] = ["Step3(NONE)", "Step3(SYS parse ok)", "Step3(SYS undecodable)", "Step3(other flavor)",
                                                "Squash(all)", "Squash(root)", "Squash(none)", "Squash(unrecognised)", "Spawn", "Handler",
-                                               "NextRequest"]
+                                               "NextRequest", "RuntimeUpdate"]
         cov["harness_summary"] = {k: summ[k] for k in ("sessions", "vectors", "denied", "ids_changed", "cfg_ok")}
         ctx.assumptions += ["the empty mode string is the documented default 'none'; a mixed-case mode that New() accepts must act as its "
                             "lower-case form, one that New() refuses may also act as unrecognised",
                             "for an unrecognised mode only uid and gid are constrained (the statement is silent on auxiliary gids)",
                             "a well-formed body followed by extra bytes, and a machine name longer than 255 bytes that is fully present, "
                             "may be accepted or denied",
-                            "object ownership for the ACCESS probes is placed in the server's node table in-package"]
+                            "object ownership for the ACCESS probes is placed in the server's node table in-package",
+                            "the squash mode is the one given to New(): the documentation declares it immutable at run time, so a run-time "
+                            "update that names no mode (accepted or refused) must leave squashing as configured; updates that explicitly "
+                            "name another mode are not exercised"]
     else:
         if stats["c12"] != summ["rows"] or summ["rows_granting"] == 0:
             raise vflib.Broken("C12: rows lost: %s %s" % (stats, summ))
